@@ -13,14 +13,15 @@ TECHNIQUE = "runtime monitor: per-segment trace/clock/state of the real simulato
 RULE = ("seeded model programs (float/int/Duration clocks) x seeded segmentation schedules of 2-9 commands with cut "
         "points before the first event, exactly at event times, strictly between events, at the warm-up time, at and "
         "beyond the replication end and before the current clock; pauses are forced deterministically (the handler of "
-        "the k-th event parks at a gate while stop() is issued; 12 (thorough 72) cases pause from a TIME_CHANGED subscriber that calls stop() on the run thread); non-trivial = schedule with >=2 different command "
+        "the k-th event parks at a gate while stop() is issued; 12 (thorough 72) cases pause from a TIME_CHANGED subscriber that calls stop() on the run thread, 60 (1200) run with a TIME_CHANGED subscriber that schedules an event of its own at every announced time); non-trivial = schedule with >=2 different command "
         "kinds, >=1 cut exactly at an event time and >=1 strictly between two event times, run to the end; distinct = "
         "canonical (program, schedule) hash")
 ASSUMPTIONS = ["a bounded run whose bound lies before the clock may be refused or be a no-op, but must not execute anything or move the clock backwards",
                "a step with nothing executable executes nothing; the clock may stay anywhere in [clock, end]",
                "an exclusive bound exactly at the replication end is not generated (the statement leaves it open)",
                "a bound beyond the replication end behaves like the end itself (clock = end, ENDED)",
-               "a stop() issued inside the TIME_CHANGED notification of time t pauses the run no later than the end of instant t (no event later than t runs before the pause); where inside the instant the pause lands is not judged, only that the pieces compose"]
+               "a stop() issued inside the TIME_CHANGED notification of time t pauses the run no later than the end of instant t (no event later than t runs before the pause); where inside the instant the pause lands is not judged, only that the pieces compose",
+               "the scheduling TIME_CHANGED subscriber schedules at the announced time (absolute); its events are judged by exactly-once, their order relative to the announced event is not (the announced event is already taken from the list)"]
 
 
 def plan(tier):
@@ -53,6 +54,16 @@ def gen_case(rng, tier, i):
         # (each of these cases costs the library's 1 s self-wait of stop() on the run thread)
         prog = gen_program(rng, clock=clock, n_events=rng.randint(6, 30), with_bad=False, bigint=False)
         return {"fam": "lstop", "prog": prog, "ks": [rng.randint(1, 6) for _ in range(1 + (i % 2))]}
+    nt = 60 if tier == "quick" else 1200
+    if nre + 18 + nl <= i < nre + 18 + nl + nt:
+        # a subscriber of TIME_CHANGED schedules an event of its own at every announced time (at that time, priority 10 or 1):
+        # whatever the segmentation, every scheduled event - the model's and the subscriber's - runs exactly once
+        prog = gen_program(rng, clock=clock, n_events=rng.randint(6, 30), with_bad=False, bigint=False)
+        prog["simlisteners"] = [{"name": "TC", "type": "TIME_CHANGED_EVENT", "script": [["schedannounced", rng.choice([10, 10, 1, 5])]]}]
+        sched = []
+        for _ in range(rng.randint(0, 3)):
+            sched.append(rng.choice([["pause", rng.randint(1, 5)], ["step"], ["step"]]))
+        return {"fam": "tcsched", "prog": prog, "sched": sched}
     if i < nre:
         # a handler ends the current run and re-issues it with a nearer bound: stop(); run_up_to(t) from inside the run
         # (each of these cases costs the library's 1 s self-wait of stop() on the run thread)
@@ -222,6 +233,51 @@ def _lstop(case, ctx):
         h.cleanup()
 
 
+def _tcsched(case, ctx):
+    from vlib.simharness import Harness, compare_traces, check_clock_monotone
+    from vlib.refdevs import Ref
+    import collections
+    prog = case["prog"]
+    bare = {k: v for k, v in prog.items() if k != "simlisteners"}
+    full = Ref(bare)
+    full.initialize()
+    full.run()
+    want = [(t, cl) for t, cl, _ in full.trace]
+    h = Harness(prog)
+    where = {"clock": prog["clock"], "schedule": case["sched"], "subscriber": prog["simlisteners"][0]["script"]}
+    try:
+        if h.cmd("initialize") != "ok":
+            ctx.viol("initialize-raises", where)
+            return
+        for c in case["sched"] + [["start"]]:
+            if h.sim.run_state.name == "ENDED":
+                break
+            if c[0] == "pause":
+                h.start_and_pause_after(c[1])
+            else:
+                h.cmd(c[0])
+            if not h.wait_quiescent(30):
+                ctx.viol("hang:tcsched", {**where, "snapshot": h.snapshot()})
+                return
+        ctx.count("runs_with_a_scheduling_time_changed_subscriber")
+        mine = set(h.listener_tags)
+        got = h.trace()
+        counts = collections.Counter(t for t, _ in got)
+        twice = sorted(t for t, n in counts.items() if n > 1)
+        lost = sorted(t for t in mine if counts[t] == 0)
+        ctx.count("subscriber_scheduled_events", len(mine))
+        if twice or lost:
+            ctx.viol("composition:event-executed-twice-or-lost:scheduling-subscriber", {**where, "executed_twice": twice[:6], "never_executed": lost[:6], "trace": got[:16]})
+            return
+        if not compare_traces(ctx, [x for x in got if x[0] not in mine], want, where, what="composition"):
+            return
+        if not check_clock_monotone(h, ctx, where):
+            return
+        ctx.nontrivial = len(mine) >= 2
+    finally:
+        h.cleanup()
+
+
 def _refuse(case, ctx):
     from vlib.simharness import Harness
     prog = case["prog"]
@@ -266,6 +322,8 @@ def run_case(case, ctx):
         return _refuse(case, ctx)
     if case.get("fam") == "lstop":
         return _lstop(case, ctx)
+    if case.get("fam") == "tcsched":
+        return _tcsched(case, ctx)
     prog, sched = case["prog"], case["sched"]
     ref = Ref(prog)
     ref.initialize()
